@@ -269,6 +269,9 @@ def len_guarded(ta, name, m, block, container, index):
     return False
 
 
+LEGACY_KEYS = {}
+
+
 def site_key(name, kind, ordinal):
     return f"{F.strip_generics(name) if not name.startswith('<') else name}|{kind}#{ordinal}"
 
@@ -740,8 +743,20 @@ def check(fx, rep, tier):
                 rep.discharged += 1
                 continue
             n_call += 1
-            ordinals[short] = ordinals.get(short, 0) + 1
-            key = site_key(name, short, ordinals[short])
+            # an unwrap / expect site is named by WHAT it unwraps (the call that produced the Option / Result), so that removing
+            # or adding an unrelated unwrap in the same function does not renumber the reviewed ones
+            qual = short
+            if short in ("unwrap", "expect", "unwrap_err", "expect_err", "unwrap_unchecked") and t["args"]:
+                a0_ = F.op_base_local(t["args"][0])
+                prod = None
+                for d_ in m.defs().get(ta.root_of(name, a0_), []) if a0_ is not None else []:
+                    if d_[0] == "call":
+                        prod = F.strip_generics(F.Mir.callee_generic(d_[3]) or "").split("::")[-1]
+                qual = f"{short}@{prod or 'value'}"
+            ordinals[qual] = ordinals.get(qual, 0) + 1
+            key = site_key(name, qual, ordinals[qual])
+            LEGACY_KEYS.setdefault(site_key(name, short, ordinals.setdefault("legacy:" + short, 0) + 1), key)
+            ordinals["legacy:" + short] += 1
             # indexing with a tainted index is a violation regardless of the table
             if short in ("index", "index_mut", "vec_remove", "vec_insert", "vec_swap_remove", "slice_swap", "split_at") and len(t["args"]) > 1:
                 idx_t = ta.op_tainted(name, t["args"][1])
